@@ -300,7 +300,22 @@ def check(ctx):
         ctx.ob("R3", st, "the scan starts at 1 and advances by 1 (lowest free number)", ok, key="alloc|start-step", where=loc(gn))
         ctx.ob("R3", st, "the scanned number is returned", tgt is not None and unparse(g.elt) == tgt, key="alloc|return", where=loc(gn))
     else:
-        raise AnalysisError(f"{st}: neither `while n in jobs: n += 1` nor `next(n for n in count(1) if n not in jobs)`")
+        # an allocator of another shape: at least the number it hands out must be *known* not to be a key of the job
+        # dict at the point of return (a dominating `n in jobs` false, or a filter of a generator it is drawn from)
+        established = bool(rets)
+        worst = None
+        for r in rets:
+            okr = False
+            for rn in cfg.nodes_of(r):
+                for e_, pol_ in facts_at(cfg, rn):
+                    if isinstance(e_, ast.Compare) and len(e_.ops) == 1 and isinstance(e_.ops[0], (ast.In, ast.NotIn)) and is_jobs(e_.comparators[0]) and unparse(e_.left) in {x.id for x in ast.walk(r.value) if isinstance(x, ast.Name)}:
+                        if pol_ == isinstance(e_.ops[0], ast.NotIn):
+                            okr = True
+            if not okr:
+                established, worst = False, r
+        ctx.ob("R3", st, "the number handed out is established not to be in the job dict (membership test on the path to the return)", established, key="alloc|number-not-established-free", where=loc(worst) if worst is not None else loc(gn), detail=None if established else f"`{short(worst, 50)}`: nothing on the way compares this number with the keys of the job dict - positions, lengths or insertion order say nothing about which numbers are taken once a freed number was reused")
+        if established:
+            raise AnalysisError(f"{st}: neither `while n in jobs: n += 1` nor `next(n for n in count(1) if n not in jobs)`: cannot decide that the free number found is the lowest")
     aj = mod.func("add_job")
     adefs = df.all_defs(aj)
     ms = mutations(aj)
@@ -502,5 +517,5 @@ META = {
     "happens under one view (a number allocated against one table is never registered in another). Interleavings with process exits are not decided.",
     "note": "Decides the listed structural clauses, not the behaviour. Error returns are recognised by the alias "
     "convention `return <out>, <non-empty err>`.",
-    "more": 'Also decided: resume_job reports success only after moving the selected job to the front of the order, which is the job bg then continues.',
+    "more": 'Also decided: resume_job reports success only after moving the selected job to the front of the order, which is the job bg then continues. An allocator of any shape must establish that the number it returns is not a key of the job dict.',
 }
